@@ -28,6 +28,9 @@ divdiff(const double* x, const double* y, size_t n)
 unsigned int
 factorial(unsigned int n)
 {
+	if (n < 2)
+		return (1); /* 0! = 1! = 1 */
+	
 	int acc = n;
 	
 	for (unsigned int i = n-1 ; i > 1; i--)
